@@ -54,10 +54,15 @@ def cleanJoin (root : P) (name : List Nat) : P := (splitSlash name).foldl cleanS
 
 /-- `filepath.Abs(dst)`, the first statement of both `ExtractWithMask`: an absolute `dst` is cleaned, a relative one
     (the empty string included) is joined to the working directory and cleaned.  `cwd` is what `os.Getwd` returns, a
-    clean absolute path.  (A failing `Getwd` — the working directory was removed — is an error before anything
-    happens; not modelled.) -/
+    clean absolute path.  (A failing `Getwd` — the working directory was removed: `absPath?` below.) -/
 def absPath (cwd : P) (dst : List Nat) : P :=
   if dst.head? = some 47 then cleanJoin [] dst else cleanJoin cwd dst
+
+/-- `filepath.Abs(dst)` with a working directory that may be gone (`cwd = none`: `os.Getwd` fails, the directory the
+    process stands in was removed): a relative spelling then is an error (`none`), an absolute one never asks for the
+    working directory -/
+def absPath? (cwd : Option P) (dst : List Nat) : Option P :=
+  if dst.head? = some 47 then some (cleanJoin [] dst) else cwd.map (fun c => cleanJoin c dst)
 
 /-- the text of an absolute path: "/a/b" (the file-system root itself is never a destination) -/
 def render (p : P) : List Nat := p.flatMap (fun c => 47 :: c)
